@@ -67,6 +67,11 @@ def seq_unit(seqs, idx, with_bad):
                         m.ode(x, t)
                         m.grad(x, t)
                     continue
+                if fname == "REDECLARE":
+                    # the user assigns the parameter list again with the names it already has (the idiom for
+                    # extending it: m.param_list = m.param_list + [...]); a no-op for the binding
+                    m.param_list = [str(p_) for p_ in m.param_list]
+                    continue
                 if fname == "COPY":
                     # carry on with a deep copy; the original keeps ITS binding and is checked at the end too
                     import copy
@@ -120,7 +125,8 @@ class C09(Check):
                    "length, including rejected inputs (wrong lengths, an unknown name in each position, 2-D array, too many keys) interleaved. "
                    "z3 proves that afterwards each named parameter holds the last value supplied for that name and that ode/grad evaluate with "
                    "that binding; rejected inputs must raise and must not leak into later evaluations.  Histories with evaluations and copy.deepcopy: "
-                   "values assigned to a copy are used by the copy, and the model that was copied keeps evaluating with its own values.")
+                   "values assigned to a copy are used by the copy, and the model that was copied keeps evaluating with its own values.  Histories in which the "
+                   "parameter list is assigned again with the names it already has.")
     assumptions = ["stochastic-parameter forms are covered by C16", "a partial update needs an earlier full assignment (otherwise unmentioned names have no value)"]
 
     def units(self, tier, seed):
@@ -139,6 +145,12 @@ class C09(Check):
                 seqs.append((a, "EVAL", "COPY", b))
                 seqs.append((a, "COPY", b))
                 seqs.append((a, "EVAL", "COPY", b, "EVAL", "COPY", part[0]))
+        # the parameter list re-declared (same names) before / between assignments
+        for a in (full[0], full[4], "dict_str", "ndarray"):
+            seqs.append(("REDECLARE", a))
+            for b in (part[1], full[2], "dict_symbol"):
+                seqs.append((a, "REDECLARE", b))
+                seqs.append((a, "EVAL", "REDECLARE", b))
         if tier != "quick":
             seqs += [(a, b, d) for a in full[::2] for b in fl[::2] for d in fl[::3]]
             seqs += [(a, p1, b, p2) for a in full[::4] for p1 in part[::3] for b in bad[::2] for p2 in part[1::4]]
